@@ -37,6 +37,7 @@ P = {
     "theorems": ["C10_ttl_within_lifetime", "C10_store_positive", "C10_finalizer_token_not_expired", "C10_zero_disables",
                  "C10_config_only_shortens", "C10_rule_level_ttl_bounds",
                  "C10_http_within_rfc_freshness", "C10_http_not_stored_when_stale", "C10_http_not_stored_without_lifetime",
+                 "C10_http_within_rfc_freshness_at_set", "C10_http_not_stored_when_stale_at_set",
                  "C10_F4_pinned_bound", "C10_F4_pinned_refuted",
                  "C10_no_hit_after_expiry", "C10_no_hit_after_expiry_http",
                  "C10_no_hit_after_expiry_any_rule", "C10_hit_age_within_ttl_in_force", "C10_F5_pinned_refuted",
@@ -59,7 +60,9 @@ P = {
             "http (20%): Cache-Control x Expires (instant/`0`/`-1`/garbage) x Date (now, +-30s, -1h) x Age (0..7200, garbage) x "
             "Last-Modified x Vary x status x method x request Cache-Control x default ttl (0/5s/1h/-1s) through the REAL "
             "httpcache.RoundTripper into the REAL memory.Cache or redis cache (miniredis); second request immediately or after simulated "
-            "0.5 s..2 h, optionally with the transport failing; the freshness-relevant header values are parsed by the driver's own "
+            "0.5 s..2 h, optionally with the transport failing; a dozen in-memory cases per run with a SLOW BODY (headers at once, body "
+            "0.3/1.2/2.3 s later, remaining freshness 1-2 s: max-age, max-age+Age, default ttl, Expires without Date): the ttl handed to "
+            "Set and the measured body delay are observed; the freshness-relevant header values are parsed by the driver's own "
             "RFC 7234 reader (the model computes what cachecontrol computes from them, the specification what RFC 7234 4.2 says), "
             "cachecontrol's cachability verdict is oracle data; "
             "cache (10%): time-stamped Set/Get sequences (ttl -1h..1h incl. 0, -1, -2, sub-millisecond) on both real backends, and bursts "
@@ -111,7 +114,7 @@ P = {
                   "(induction, both cache semantics), for the code with the repairs of C10-F1..F5, without guards: every ttl a mechanism "
                   "hands to the cache is positive, at most the ttl in force for the rule (rule level, else prototype) and ends strictly "
                   "before the credential's / leaf certificate's / token's own expiry even if applied 4 s late; a ttl of zero disables lookup "
-                  "and store; for all max-age/Expires/Date/Age values what the round tripper stores lies within the RFC 7234 remaining "
+                  "and store; for all max-age/Expires/Date/Age values what the round tripper stores lies within the RFC 7234 remaining (at the time of the Set: minus the time the body took to arrive) "
                   "freshness (lifetime minus current age; transcribed independently of the model) and nothing is stored when that is not "
                   "positive; no hit in any history at or after expiry, also when requests run under different rules; a hit under a configured "
                   "ttl c is at most c old (the ttl is part of every cache key); both cache semantics enforce expiry for all Set/Get "
